@@ -120,6 +120,24 @@ def offset_pairing(ctx, rid):
         ctx.inst(rid, fn, 'def _solve_bruteforce', not other, "the argument is never modified", nontrivial=False)
 
 
+def copy_through_class(ctx, rid):
+    """copy() returns self.__class__(self): the copy constructor of the model's own class is what carries the ancilla
+    counter, the constraint record and the label mapping over (an empty instance + update() carries none of them)."""
+    P, R = ctx.prog, ctx.res
+    cp = P.func('DictArithmetic.copy')
+    sn = R.self_name(cp)
+    rets = [n for n in walk_no_nested(strip_docstring(cp.node.body)) if isinstance(n, ast.Return)]
+    for r in rets:
+        v = r.value
+        ok = isinstance(v, ast.Call) and src(v.func) in ('%s.__class__' % sn, 'type(%s)' % sn) and \
+            len(v.args) == 1 and is_name(v.args[0], sn)
+        ctx.inst(rid, cp, r, ok, "copy constructs through the model's own class" if ok else
+                 "copy() does not return self.__class__(self): type or bookkeeping (ancilla counter, constraints, mapping) of "
+                 "the copy differ")
+    if not rets:
+        ctx.inst(rid, cp, 'def copy', False, "copy() returns nothing")
+
+
 def rules(ctx):
     P, R = ctx.prog, ctx.res
     _resolve_tables(P)
@@ -230,14 +248,7 @@ def rules(ctx):
                      why if ok else "%s.constraints: %s - editing the returned value edits the model's record" % (cname, why))
 
     # ---------------------------------------------------------------- R19.3
-    cp = P.func('DictArithmetic.copy')
-    sn = R.self_name(cp)
-    for r in [n for n in walk_no_nested(strip_docstring(cp.node.body)) if isinstance(n, ast.Return)]:
-        v = r.value
-        ok = isinstance(v, ast.Call) and src(v.func) in ('%s.__class__' % sn, 'type(%s)' % sn) and \
-            len(v.args) == 1 and is_name(v.args[0], sn)
-        ctx.inst('R19.3', cp, r, ok, "copy constructs through the model's own class" if ok else
-                 "copy() does not return self.__class__(self): type or bookkeeping of the copy differ")
+    copy_through_class(ctx, 'R19.3')
     init = P.func('PCBO.__init__')
     sn = R.self_name(init)
     va = init.node.args.vararg.arg if init.node.args.vararg else 'args'
